@@ -268,7 +268,7 @@ func (g *StepRig) Run(c *StepCase) (out StepOutcome) {
 	info := &out.Info
 
 	// --- state
-	p, e := out.Post, out.Exp
+	p, e := Arch(out.Post), out.Exp
 	fOK := (p.AF.Lo^e.AF.Lo)&info.FMask == 0
 	if !fOK && info.HasAlt {
 		fOK = (p.AF.Lo^info.AltF)&info.AltMask == 0
